@@ -14,7 +14,7 @@ import typing
 import z3
 
 from . import val as V
-from .val import SV, Obj, MList, MDict, lower, deep_symbolic
+from .val import SV, Obj, MList, MDict, PDict, PList, norm, lower, deep_symbolic
 from .interp import (Unsupported, PyRaise, PathAbort, Closure, BoundMethod, SymMethod, Env, Path,
                      NativeBound, explore, _concrete_list_items)
 
@@ -369,7 +369,15 @@ def get_item(I, o, k):
 
 
 def splat_kwargs(I, kwargs, d):
-    raise Unsupported("** of a symbolic mapping")
+    """f(**d) with a symbolic mapping: carried under the reserved key '__splat__' (consumed by model methods and by
+    callees that have a **kwargs parameter)"""
+    if isinstance(d, (MDict, SV)):
+        out = dict(kwargs)
+        if "__splat__" in out:
+            raise Unsupported("two symbolic ** arguments")
+        out["__splat__"] = d
+        return out
+    raise Unsupported("** of a non-mapping")
 
 
 def make_set(I, items):
@@ -435,11 +443,13 @@ def symbolic_comprehension(I, e, env, module):
         # concrete spine: evaluate normally, but we already evaluated the iterable once; re-evaluation
         # is harmless for the pure expressions used as iterables in the code under contract
         return None
-    if isinstance(e, ast.DictComp):
-        raise Unsupported("dict comprehension over a symbolic sequence")
     site = f"{getattr(module, '__name__', '?')}:{e.lineno}:{e.col_offset}"
     elem = I.p.fresh("elem")
-    body = merged_eval(I, elem, xs, g, e.elt, env, module, site)
+    I.ctx.__dict__.setdefault("elem_parents", {})[elem.get_id()] = xs
+    I.ctx.__dict__.setdefault("keepalive", []).append(elem)
+    is_dict = isinstance(e, ast.DictComp)
+    elt = ast.Tuple(elts=[e.key, e.value], ctx=ast.Load()) if is_dict else e.elt
+    body = merged_eval(I, elem, xs, g, elt, env, module, site)
     bterm, keep = body
     canon = z3.Const("__elem__", V.Val)
     key = (site, z3.substitute(bterm, (elem, canon)).sexpr(),
@@ -465,6 +475,13 @@ def symbolic_comprehension(I, e, env, module):
     m["xs"] = xs
     MAPS[ent["name"]] = m
     I.p.ctx.__dict__.setdefault("maps_used", {})[ent["name"]] = m
+    if is_dict:
+        # keys of the result: distinct provided the key expression maps distinct source keys to distinct keys; the
+        # code under contract only uses the identity on the source dict's keys (checked here)
+        if not (isinstance(e.key, ast.Name) and isinstance(g.target, ast.Tuple) and isinstance(g.target.elts[0], ast.Name)
+                and g.target.elts[0].id == e.key.id):
+            raise Unsupported("dict comprehension whose key is not the source key")
+        return SV(V.VDict(f(xs)))
     return SV(V.VList(f(xs)))
 
 
@@ -517,11 +534,35 @@ def merged_eval(I, elem, xs, gen, elt_expr, env, module, site):
         body = t if body is None else z3.If(cond, t, body)
     if body is None:
         body = V.VNone
+    for c in _free_consts(body) + ([] if keep is None else _free_consts(keep)):
+        nm = c.decl().name()
+        if "!" in nm and not c.eq(elem):
+            try:
+                num = int(nm.rsplit("!", 1)[1])
+            except ValueError:
+                continue
+            if num > parent.counter:
+                raise Unsupported(f"comprehension element at {site} depends on a non-functional intermediate ({nm}); "
+                                  "the callee contract needs a result_term")
     if not any_skip:
         keep = None
     elif keep is None:
         keep = z3.BoolVal(True)
     return _simpl(body), (None if keep is None else _simpl(keep))
+
+
+def _free_consts(t):
+    out, seen, stack = [], set(), [t]
+    while stack:
+        x = stack.pop()
+        if x.get_id() in seen:
+            continue
+        seen.add(x.get_id())
+        if z3.is_const(x) and x.decl().kind() == z3.Z3_OP_UNINTERPRETED:
+            out.append(x)
+        elif z3.is_app(x):
+            stack.extend(x.children())
+    return out
 
 
 def elem_facts(I, xs, elem):
@@ -548,12 +589,22 @@ def symbolic_for(I, st, it, env, module):
 
 # --------------------------------------------------------------------------- symbolic methods
 
+MUTATING = {"append", "extend", "insert", "pop", "remove", "clear", "sort", "reverse", "update", "setdefault",
+            "popitem", "add", "discard", "__setitem__", "__delitem__"}
+
+
 def call_sym_method(I, recv, name, args, kwargs):
     if isinstance(recv, MList):
         return mlist_method(I, recv, name, args, kwargs)
     if isinstance(recv, MDict):
         return mdict_method(I, recv, name, args, kwargs)
     t = _simpl(recv.t)
+    if name in MUTATING and (entailed(I, V.is_VDict(t)) or entailed(I, V.is_VList(t))):
+        # a container that is part of a symbolic input (value semantics): mutating it in place changes an object
+        # owned by the caller
+        I.p.oblige("frame.arguments-not-mutated", z3.BoolVal(False), "frame",
+                   detail=f"in-place .{name}() on a container reachable from the function's arguments", assume_after=False)
+        raise PathAbort()
     if name in DICT_METHODS and (name not in STR_METHODS or entailed(I, V.is_VDict(t))):
         require_kind(I, t, V.is_VDict, f"dict.{name}")
         return dict_method(I, t, name, args, kwargs)
@@ -586,7 +637,7 @@ def mdict_method(I, recv, name, args, kwargs):
         other = args[0]
         if isinstance(other, dict):
             for k, v in other.items():
-                recv.t = V.VDict(V.d_set(V.vd(recv.t), lower(k), lower(v)))
+                recv.t = V.VDict(V.d_set(V.vd(recv.t), lower(k), V.store_lower(v)))
             return None
         ot = lower(other)
         require_kind(I, ot, V.is_VDict, "dict.update(arg)")
@@ -598,16 +649,36 @@ def mdict_method(I, recv, name, args, kwargs):
         return dict_method(I, recv.t, name, args, kwargs)
     if name == "items":
         return SV(V.VList(V.vd(recv.t)))
+    if name == "setdefault":
+        k = lower(args[0])
+        dflt = args[1] if len(args) > 1 else None
+        if I.p.branch(V.dhas(V.vd(recv.t), k), "dict.setdefault-present"):
+            return SV(V.dlookup(V.vd(recv.t), k))
+        recv.t = V.VDict(V.d_set(V.vd(recv.t), k, V.store_lower(dflt)))
+        return dflt
+    if name == "pop":
+        k = lower(args[0])
+        if I.p.branch(V.dhas(V.vd(recv.t), k), "dict.pop-present"):
+            v = SV(V.dlookup(V.vd(recv.t), k))
+            recv.t = V.VDict(d_remove(V.vd(recv.t), k))
+            return v
+        if len(args) > 1:
+            return args[1]
+        raise PyRaise(KeyError("<symbolic key>"))
     raise Unsupported(f"dict.{name} on symbolic dict")
 
 
-d_update = V._recfun("d_update", [V.VL, V.VL, V.VL],
-                     lambda f, a, b: z3.If(V.is_VNil(b), a, f(V.d_set(a, V.pkey(V.hd(b)), V.pval(V.hd(b))), V.tl(b))))
+d_remove = V._recfun("d_remove", [V.VL, V.Val, V.VL],
+                     lambda f, l, k: z3.If(V.is_VNil(l), V.VNil,
+                                           z3.If(V.pkey(V.hd(l)) == k, V.tl(l), V.VCons(V.hd(l), f(V.tl(l), k)))))
+
+
+d_update = V.d_update
 
 
 def mlist_method(I, recv, name, args, kwargs):
     if name == "append":
-        recv.t = V.VList(V.vl_snoc(V.vl(recv.t), lower(args[0])))
+        recv.t = V.VList(V.vl_snoc(V.vl(recv.t), V.store_lower(args[0])))
         return None
     if name == "extend":
         recv.t = V.VList(V.vl_concat(V.vl(recv.t), V.vl(lower(args[0]))))
@@ -688,7 +759,11 @@ def call_native(I, fn, args, kwargs):
     self_obj = getattr(fn, "__self__", None)
     name = getattr(fn, "__name__", "")
     if self_obj is not None and not isinstance(self_obj, type(builtins)):
-        mm = METHOD_MODELS.get((type(self_obj), name))
+        mm = None
+        for klass in type(self_obj).__mro__:
+            mm = METHOD_MODELS.get((klass, name))
+            if mm is not None:
+                break
         if mm is not None:
             r = mm(I, self_obj, args, kwargs)
             if r is not NotImplemented:
@@ -704,13 +779,16 @@ def call_native(I, fn, args, kwargs):
             guard(I, fn, args, kwargs)
         try:
             return fn(*args, **kwargs)
-        except PyRaise:
+        except (PyRaise, Unsupported, V.AliasingUnsupported, PathAbort):
             raise
         except Exception as ex:      # the real library raised: propagate as a Python exception of that class
             raise PyRaise(ex)
-    if self_obj is not None and (type(self_obj), name) in PURE_STRUCTURAL_METHODS and not isinstance(self_obj, (SV, Obj)):
+    if self_obj is not None and any((k, name) in PURE_STRUCTURAL_METHODS for k in type(self_obj).__mro__) \
+            and not isinstance(self_obj, (SV, Obj)):
         try:
             return fn(*args, **kwargs)
+        except (PyRaise, Unsupported, V.AliasingUnsupported, PathAbort):
+            raise
         except Exception as ex:
             raise PyRaise(ex)
     if isinstance(fn, type) and issubclass(fn, BaseException):
@@ -773,7 +851,17 @@ def _dict_update(I, d, args, kwargs):
         d.update(kwargs)
         return None
     if isinstance(other, (SV, MDict)):
-        raise Unsupported("concrete dict .update(symbolic mapping): make the receiver an MDict in the contract setup")
+        if not isinstance(d, PDict):
+            raise Unsupported("native dict .update(symbolic mapping)")
+        ot = lower(other)
+        require_kind(I, ot, V.is_VDict, "dict.update(arg)")
+        m = MDict(lower(dict(d)))
+        m.t = V.VDict(d_update(V.vd(m.t), V.vd(ot)))
+        for k, v in kwargs.items():
+            m.t = V.VDict(V.d_set(V.vd(m.t), lower(k), lower(v)))
+        d.clear()
+        d.m = m
+        return None
     return NotImplemented
 
 
@@ -782,6 +870,31 @@ def _dict_misc(I, d, args, kwargs):
     if deep_symbolic(args[0]):
         raise Unsupported("dict method with symbolic key")
     return NotImplemented
+
+
+@method_model(dict, "copy")
+def _dict_copy(I, d, args, kwargs):
+    return PDict(d)
+
+
+@method_model(list, "extend")
+def _list_extend(I, l, args, kwargs):
+    other = args[0]
+    if isinstance(other, (SV, MList)):
+        if not isinstance(l, PList):
+            raise Unsupported("native list .extend(symbolic sequence)")
+        ot = lower(other)
+        require_kind(I, ot, V.is_VList, "list.extend(arg)")
+        m = MList(V.VList(V.vl_concat(V.vl(lower(list(l))), V.vl(ot))))
+        l.clear()
+        l.m = m
+        return None
+    return NotImplemented
+
+
+@method_model(list, "copy")
+def _list_copy(I, l, args, kwargs):
+    return PList(l)
 
 
 @method_model(list, "index", "count", "remove", "__contains__")
@@ -964,7 +1077,7 @@ def _tuple(I, args, kwargs):
 def _dict(I, args, kwargs):
     if args and isinstance(args[0], (SV, MDict)):
         return MDict(lower(args[0]))
-    out = dict(*args) if args else {}
+    out = PDict(*args) if args else PDict()
     out.update(kwargs)
     return out
 
